@@ -495,7 +495,7 @@ Qed.
 
 Theorem inv_step k s o : Inv s -> Inv (fst (step Current k s o)).
 Proof.
-  intros Hinv. destruct o as [c|c kind x isCtl|c|c|c|c|x newc| |d|c pre|c x|c t|c|c pre]; cbn [step].
+  intros Hinv. destruct o as [c|c kind x isCtl|c|c|c|c|x newc| |d|c pre|c x|c t|c|c pre|c x0]; cbn [step].
   - destruct ((0 <? maxConn k) && (maxConn k <=? N.of_nat (length (sess s)))); [exact Hinv|].
     destruct (mem c (streams s)); [exact Hinv|]. destruct Hinv as [H1 H2 H3]. split; assumption.
   - apply inv_handshake. exact Hinv.
@@ -520,6 +520,9 @@ Proof.
   - destruct (mem c (sess s)); [|exact Hinv]. cbn [fst].
     pose proof (inv_unregister c s Hinv) as [H1 H2 H3]. split; assumption.
   - destruct (mem c (streams s)); [|exact Hinv]. destruct Hinv as [H1 H2 H3]. split; assumption.
+  - destruct (mem c (sess s) && negb (mem c (closed s))) eqn:Eg; [|exact Hinv].
+    cbn [fst]. apply andb_true_iff in Eg. destruct Eg as [_ Eg2]. apply negb_true_iff in Eg2.
+    apply inv_bump. apply inv_rereg; assumption.
   - destruct (mem c (sess s) && negb (mem c (closed s))) eqn:Eg; [|exact Hinv].
     cbn [fst]. apply andb_true_iff in Eg. destruct Eg as [_ Eg2]. apply negb_true_iff in Eg2.
     apply inv_bump. apply inv_rereg; assumption.
